@@ -1028,7 +1028,8 @@ MANIFEST = {
             "code), text and cast weight, as a multiset (C06_enumerate_build); the collected entries are exactly the source rows that carry "
             "a code - none invented, none lost, multi-syllable rows one for one in order (C06_nothing_invented / _nothing_lost / "
             "_phrases_one_for_one); entries sharing a code are enumerated in non-increasing weight for every monotone cast unless the "
-            "original order is requested (C06_same_code_sorted); the reverse table records for a text exactly its one-syllable codes "
+            "original order is requested (C06_same_code_sorted); every trunk array of the built index is strictly key-sorted, which is "
+            "what the binary search relies on (C06_index_keys_sorted); the reverse table records for a text exactly its one-syllable codes "
             "(C06_reverse_lookup_exact); Table::Build over the growing mapped file never uses a stale pointer nor remaps when "
             "bytes_needed fits the created capacity (C06_build_never_remaps), which the historical estimate 4096+32S+64N does not "
             "guarantee (C06_linear_estimate_refuted, computed witnesses) and the current source does for every vocabulary and image size "
